@@ -98,7 +98,8 @@ type csvRecordsWriter struct {
 }
 
 func (w *csvRecordsWriter) Write(record []string) error {
-	w.records = append(w.records, record)
+	// records are retained: copy them, since the reader may reuse the slice (csv.Reader.ReuseRecord)
+	w.records = append(w.records, append([]string(nil), record...))
 
 	return nil
 }
